@@ -498,6 +498,19 @@ def parse_tag(text: str, parser: Optional[Parser]) -> Tuple[str, List[TagAttr]]:
 
         return result
 
+    # Check if we're at the start of a list or dict, e.g. `[`, `...[`, `*[`, `**[`. Same as with variables,
+    # there may be whitespace between `*` / `**` and the list / dict, e.g. `[ * [1, 2] ]`.
+    def is_next_container(open_char: str) -> bool:
+        if is_next_token([open_char, "..." + open_char]):
+            return True
+        for spread in ("**", "*"):
+            if is_next_token([spread]):
+                offset = len(spread)
+                while not is_at_end(offset) and text[index + offset] in TAG_WHITESPACE:
+                    offset += 1
+                return not is_at_end(offset) and text[index + offset] == open_char
+        return False
+
     def extract_spread_token(curr_struct: TagValueStruct, filter_token: Optional[str]) -> Optional[str]:
         # Move the spread syntax out of the way, so that we properly handle what's next.
         # Spread syntax MUST NOT be part of a filter, so that will raise if so.
@@ -591,7 +604,7 @@ def parse_tag(text: str, parser: Optional[Parser]) -> Tuple[str, List[TagAttr]]:
             curr_value = stack[-1]
 
             # Manage state with regards to lists and dictionaries
-            if is_next_token(["[", "...[", "*[", "**["]):
+            if is_next_container("["):
                 spread_token = extract_spread_token(curr_value, None)
                 if spread_token is not None:
                     if curr_value.type == "simple" and key is not None:
@@ -613,7 +626,7 @@ def parse_tag(text: str, parser: Optional[Parser]) -> Tuple[str, List[TagAttr]]:
                     stack.pop()
                 continue
 
-            elif is_next_token(["{", "...{", "*{", "**{"]):
+            elif is_next_container("{"):
                 spread_token = extract_spread_token(curr_value, None)
                 if spread_token is not None:
                     if curr_value.type == "simple" and key is not None:
